@@ -87,6 +87,7 @@ def lane_main(argv):
     from . import core  # noqa  (warm the zygote)
     root = '/dev/shm' if os.path.isdir('/dev/shm') and os.access('/dev/shm', os.W_OK) else None
     scratch_root = tempfile.mkdtemp(prefix='vsim-', dir=root)
+    os.environ['VSIM_PYC_DIR'] = os.path.join(scratch_root, 'pyc')
     gc.collect()
     gc.freeze()
     n = 0
